@@ -28,7 +28,7 @@ const (
 
 func init() {
 	register("C22", propMeta{
-		Explanation:  "Decides the backup -> write -> delete-backup discipline of registry block writes: (R1) in writeBlockRegionPayload the copy-on-write backup is created (and its failure stops the write) before the direct-I/O write, and the backup is deleted only after a complete successful write; (R2) only writeBlockRegionPayload and restoreFromCow may call the direct-I/O write; (R3) updateFileBlockRegion holds the block lock (released by defer) around read-verify-modify-write; (R4) format agreement between the backup's writer and its reader: the buffer handed to createCow is the very block buffer that is then written to the main file (a full blockSize block carrying its checksum), all callers allocate it with the aligned-block allocators, createCow writes exactly its data argument, and checkCow accepts exactly blockSize bytes that pass unmarshalData. (R5) marshalData writes the 4-byte trailer on every path, including the all-zero fast path, because blocks are marshalled in place over previously read bytes; (R6) every caller of writeBlockRegionPayload reads the same (file, offset) into the written buffer after acquiring the block lock.",
+		Explanation:  "Decides the backup -> write -> delete-backup discipline of registry block writes: (R1) in writeBlockRegionPayload the copy-on-write backup is created (and its failure stops the write) before the direct-I/O write, and the backup is deleted only after a complete successful write; (R2) only writeBlockRegionPayload and restoreFromCow may call the direct-I/O write; (R3) updateFileBlockRegion holds the block lock (released by defer) around read-verify-modify-write; (R4) format agreement between the backup's writer and its reader: the buffer handed to createCow is the very block buffer that is then written to the main file (a full blockSize block carrying its checksum), all callers allocate it with the aligned-block allocators, createCow writes exactly its data argument, and checkCow accepts exactly blockSize bytes that pass unmarshalData. (R5) marshalData writes the 4-byte trailer on every path, including the all-zero fast path, because blocks are marshalled in place over previously read bytes; (R6) every caller of writeBlockRegionPayload reads the same (file, offset) into the written buffer after acquiring the block lock. (R7) restoreFromCow reports success only after it copied the verified backup into the caller's buffer (shared with C23.R1 / C08.R5).",
 		DoesNotCover: "Torn-prefix lengths and concurrent readers are not enumerated; that WriteFile is atomic enough for the backup itself is assumed.",
 	}, runC22)
 	register("C23", propMeta{
